@@ -21,7 +21,7 @@ RULE = (
 )
 ASSUMPTIONS = ["the allocation policy itself is not fixed by the statement: any fresh id in 1..254 is accepted"]
 DELETABLE = ("ops",)
-ASPECTS = frozenset({"idalloc"})
+ASPECTS = frozenset({"idalloc", "leak"})
 
 
 def budgets(tier: str) -> dict:
@@ -52,7 +52,7 @@ def _ops():
 
 def strategy(tier: str):
     return st.fixed_dictionaries(
-        {"version": gen.versions, "ids": _ids, "install": st.sampled_from(("direct", "presented")), "ops": _ops()}
+        {"version": gen.versions, "ids": _ids, "install": st.sampled_from(("direct", "presented")), "ops": _ops(), "listen_mode": st.sampled_from(("fresh", "persistent"))}
     )
 
 
@@ -61,12 +61,16 @@ def enumerate_cases(tier: str):
     for k in range(256):
         yield {"version": "2.2" if k % 2 else "1.4", "ids": [k], "install": "direct", "ops": req}
         yield {"version": "2.0" if k % 2 else "1.5", "ids": list(range(1, k + 1)), "install": "direct", "ops": req}
+    for k in (250, 252, 253, 254):
+        # nearly full registries without the gateway node 0, filled to the brim by requests
+        yield {"version": "2.1", "ids": list(range(1, k + 1)), "install": "direct", "ops": [["rx", "255;255;3;0;3;\n"]] * (256 - k)}
+        yield {"version": "1.4", "ids": [i for i in range(0, 255) if i != k - 100], "install": "direct", "ops": req}
 
 
 def run_case(case: dict) -> Outcome:
     ids = sorted(set(case["ids"]))
     ops = list(case["ops"])
-    hist = {"version": case["version"], "ops": ops}
+    hist = {"version": case["version"], "ops": ops, "listen_mode": case.get("listen_mode", "fresh")}
     if case["install"] == "presented":
         hist["registry"] = {}
         hist["ops"] = [["rx", f"{i};255;0;0;17;2.0\n"] for i in ids] + ops
